@@ -128,8 +128,10 @@ class Module:
                 tree = ast.parse(text, filename=path)
             except SyntaxError as e:   # a tree that does not parse cannot be analysed
                 raise AnchorError('%s does not parse: %s' % (path, e))
-            from .alpha import normalise
-            self.renamed = normalise(tree, path)      # locals that were merely renamed get their reference names back
+            from . import alpha, unrefactor
+            # inverse refactorings relative to the reference shape (new constants / helpers / explaining variables / conditional expressions)
+            self.unrefactored = unrefactor.normalise(tree, path, alpha._ref().get(path))
+            self.renamed = alpha.normalise(tree, path)      # locals that were merely renamed get their reference names back
             _PARSE[key] = tree
         self.tree = _PARSE[key]
         self.classes = {}
